@@ -138,8 +138,9 @@ def _num_text(kind):
 def _num_params(tier, seed):
     if tier == "thorough":
         return NUM_KINDS
-    # quick: the kinds that exhaust within the budget; the long texts (duration with 1-10 digit day counts, ISO date-times) only in thorough
-    return [k for k in NUM_KINDS if k[0] in ("offset:+HH:mm:ss", "offset:+HH:mm", "time:HH:mm:ss") or (k[0] == "date:iso" and k[1] == 5)]
+    # quick: every kind; of the duration day-count partitions the shortest and the longest (all ten in thorough)
+    return [k for k in NUM_KINDS if k[0] in ("offset:+HH:mm:ss", "offset:+HH:mm", "time:HH:mm:ss", "date:iso", "datetime:iso", "duration:fraction")
+            or (k[0] == "duration:roundtrip" and k[1] in (1, 10))]
 
 
 NUM_KINDS = ([["duration:roundtrip", k] for k in range(1, 11)] + [["duration:fraction", 0]] + [["offset:+HH:mm:ss", 0], ["offset:+HH:mm", 0], ["time:HH:mm:ss", 0]]
